@@ -91,12 +91,25 @@ Definition rename_ref (v : value) : list value :=
                         | None => [v] end
   | _ => [v]
   end.
-(* keyword mapped to a field keeps its substring semantics: f|contains: kw *)
+(* keyword mapped to a field keeps its substring semantics, composed with the modifiers of the keyword entry
+   (the values below are the values after modifiers):
+     [kw, ...]            ->  f|contains: [kw, ...]
+     '|all': [...]        ->  f|contains|all: [...]        (linking kept)
+     '|cased': kw         ->  f|contains|cased: kw         (case sensitivity kept)
+     '|startswith' / '|endswith' / '|contains': kw  ->  f|contains: kw    (substring subsumes the anchor)
+     '|re': r             ->  f|re: r                      (a regular expression states its own matching)
+     '|neq': kw           ->  f|contains|neq: kw           (negation kept)
+     numbers, expansions (windash, base64offset): the substring form of their text / of every alternative *)
+Definition kw_aval (a : aval) : aval :=
+  match a with
+  | AStr c s => AStr c (add_wild s)
+  | ANum n => AStr false (add_wild (parse true n))
+  | _ => a
+  end.
 Definition kw_value (v : value) : value :=
   match v with
-  | V (AStr c s) => V (AStr c (add_wild s))
-  | V (ANum n) => V (AStr false (add_wild (parse true n)))
-  | _ => v
+  | V a => V (kw_aval a)
+  | VExp l => VExp (map kw_aval l)
   end.
 Definition rw_rename (i : ditem) : option doc :=
   let vals1 := flat_map rename_ref (i_vals i) in
